@@ -17,7 +17,7 @@ use std::path::{Path, PathBuf};
 pub static SPEC: PropSpec = PropSpec {
     id: "C14",
     level: "exploration",
-    rule: "projects: the 8 corpus projects; three projects in which a package imports itself (driven through the separate path in the order a user would give); three projects with a package that contains no function (types only, generic types only, a trait only - used statically and through dyn); 72 transitive-visibility projects (Main reaches an item of a package that only a dependency of its dependencies imports - impl, field, inherent path, annotation, dot call, enum pattern, static function, value passed through - over 7 assignments of names to the chain, with import controls); generated projects with 1-5 library packages (dependency DAGs with diamonds, cross-package structs in signatures, generic functions and enums, traits with impls for local and primitive types, impls of a foreign trait for a local type, 1-3 source files per package); and textual mutations of them (one import dropped from one file of a multi-file package, all imports of a package dropped, a call redirected to a function that does not exist, a return type changed, an impl removed, a definition duplicated in a second file, a package declaration changed) that usually make the project invalid. each is compiled whole and separately under every topological order of its package graph (at most 8): acceptance parity, equal behaviour of the two Go programs (stdout / termination, and the model's expected stdout for unmutated generated projects), check interface == build interface for every package. non-trivial: projects accepted both ways and executed; distinct by source hash",
+    rule: "projects: the 8 corpus projects; three projects in which a package imports itself (driven through the separate path in the order a user would give); six projects with packages of unusual content (types only, generic types only, a trait only - used statically and through dyn -, a method-less marker trait in a library / in Main, empty struct + one-variant enum + empty trait); 72 transitive-visibility projects (Main reaches an item of a package that only a dependency of its dependencies imports - impl, field, inherent path, annotation, dot call, enum pattern, static function, value passed through - over 7 assignments of names to the chain, with import controls); generated projects with 1-5 library packages (dependency DAGs with diamonds, cross-package structs in signatures, generic functions and enums, traits with impls for local and primitive types, impls of a foreign trait for a local type, 1-3 source files per package); and textual mutations of them (one import dropped from one file of a multi-file package, all imports of a package dropped, a call redirected to a function that does not exist, a return type changed, an impl removed, a definition duplicated in a second file, a package declaration changed) that usually make the project invalid. each is compiled whole and separately under every topological order of its package graph (at most 8): acceptance parity, equal behaviour of the two Go programs (stdout / termination, and the model's expected stdout for unmutated generated projects), check interface == build interface for every package. non-trivial: projects accepted both ways and executed; distinct by source hash",
     eval_counter: "project_observations",
     assumptions: &["behaviour is compared through gomini; artifacts are written and re-read through the same serde_json path the CLI uses"],
     crash_is_violation: false,
@@ -382,6 +382,31 @@ fn run(ctx: &mut Ctx) {
                     ("main.gom", "package Main\nimport Shown\nimport Things\n\nfn via(d: dyn Shown::Show) -> string { Shown::Show::show(d) }\n\nfn main() {\n    let t = Things::mk(3);\n    let _ = string_println(Shown::Show::show(t));\n    let u = Things::mk(4);\n    let _ = string_println(via(u));\n    ()\n}\n"),
                 ],
                 "th3\nth4\n",
+            ),
+            (
+                "marker-trait-package",
+                vec![
+                    ("Tag/lib.gom", "package Tag\n\ntrait Marked {}\n"),
+                    ("Shapes/lib.gom", "package Shapes\nimport Tag\n\nstruct Sq { s: int32 }\n\nimpl Tag::Marked for Sq {}\n\nfn mk(s: int32) -> Sq { Sq { s: s } }\n\nfn side[T: Tag::Marked](t: T, k: int32) -> int32 { k }\n"),
+                    ("main.gom", "package Main\nimport Tag\nimport Shapes\n\nfn main() {\n    let q = Shapes::mk(4);\n    let _ = string_println(int32_to_string(q.s + Shapes::side(q, 5)));\n    ()\n}\n"),
+                ],
+                "9\n",
+            ),
+            (
+                "marker-trait-in-main",
+                vec![
+                    ("Shapes/lib.gom", "package Shapes\n\nstruct Sq { s: int32 }\n\nfn mk(s: int32) -> Sq { Sq { s: s } }\n"),
+                    ("main.gom", "package Main\nimport Shapes\n\ntrait Marked {}\n\nstruct Loc { v: int32 }\n\nimpl Marked for Loc {}\n\nfn main() {\n    let q = Shapes::mk(4);\n    let l = Loc { v: 2 };\n    let _ = string_println(int32_to_string(q.s + l.v));\n    ()\n}\n"),
+                ],
+                "6\n",
+            ),
+            (
+                "empty-shells",
+                vec![
+                    ("Hollow/lib.gom", "package Hollow\n\nstruct Unit0 {}\n\nenum One { Only }\n\ntrait Nothing {}\n\nimpl Nothing for Unit0 {}\n\nfn mk() -> Unit0 { Unit0 {} }\n"),
+                    ("main.gom", "package Main\nimport Hollow\n\nfn code(o: Hollow::One) -> int32 { match o { Hollow::One::Only => 7 } }\n\nfn main() {\n    let u = Hollow::mk();\n    let _ = string_println(int32_to_string(code(Hollow::One::Only)));\n    ()\n}\n"),
+                ],
+                "7\n",
             ),
         ];
         for (i, (name, files, expected)) in scen.into_iter().enumerate() {
